@@ -62,7 +62,8 @@ example :
 example : sectionOK false [] [.acq, .set "fmap", .use "fmap", .rel] = true
     ∧ sectionOK false [] [.set "fmap", .use "fmap"] = false := by decide
 
-/-- Tie A: nothing else calls `_parse` / `_get_or_create_parser` (they would run outside the lock) -/
+/-- Tie A: no helper that handles the state the lock protects is called from outside the lock by anything but an
+entry point (whose own program is judged by `lock_covers`) -/
 theorem helpers_private :
     Gen.helperCallers.all (fun c => (Ref.entryPoints.map ("__init__." ++ ·)).contains c.1) = true := by
   decide
